@@ -6,7 +6,7 @@ from hypothesis import strategies as st
 
 from .. import arr as A
 from .. import unit as U
-from ..core import Failure, drive
+from ..core import sstr, Failure, drive
 from ..gen import arrays as G
 
 ID = "C08"
@@ -136,7 +136,7 @@ def check_unit(case, rec):
         st_again, r_again = A.run_command(cmd, o.arrays, params)
         rec.label("reused_input")
         if st_again == "err":
-            fails.append(Failure("%s|reused_input:raises:%s" % (o.sig, A.exc_name(r_again)), str(r_again)[:200]))
+            fails.append(Failure("%s|reused_input:raises:%s" % (o.sig, A.exc_name(r_again)), sstr(r_again)[:200]))
         else:
             again = A.compare(r_again, o.ref, o.arrays[0].shape, o.sig + "|reused_input")
             fails.extend(again)
@@ -148,7 +148,7 @@ def check_unit(case, rec):
         st2, r2 = A.run_command(VARIANT[cmd], o.arrays, to_normalize_params(cmd, params), fuzzy_inputs=False)
         rec.label("differential:variant_vs_normalize")
         if st2 == "err":
-            fails.append(Failure("%s|variant_differs:normalize_raises:%s" % (o.sig, A.exc_name(r2)), str(r2)[:200]))
+            fails.append(Failure("%s|variant_differs:normalize_raises:%s" % (o.sig, A.exc_name(r2)), sstr(r2)[:200]))
         elif not U.result_equal(clamp_arr(r2), o.result, 1e-12):
             fails.append(Failure("%s|variant_differs" % o.sig, "clamp(%s) != %s" % (VARIANT[cmd], cmd)))
     if cmd == "CvtToFuzzy" and "TrueThreshold" not in params and "FalseThreshold" not in params and params.get(
@@ -164,7 +164,7 @@ def check_unit(case, rec):
         st2, back = A.run_command("CvtFromFuzzy", [o.result], {"TrueThreshold": t, "FalseThreshold": f}, fuzzy_inputs=True)
         rec.label("inverse:from_fuzzy")
         if st2 == "err":
-            fails.append(Failure("%s|inverse_raises:%s" % (o.sig, A.exc_name(back)), str(back)[:200]))
+            fails.append(Failure("%s|inverse_raises:%s" % (o.sig, A.exc_name(back)), sstr(back)[:200]))
         else:
             lo, hi = min(t, f), max(t, f)
             m = numpy.ma.getmaskarray(o.arrays[0])
